@@ -1645,6 +1645,61 @@ Proof.
   - auto.
 Qed.
 
+(* reading a refinement statement from the side of the answer *)
+Lemma refines_ok_inv : forall (r : option astate) w w' o (tr : list effect) out,
+  match r with
+  | Some s' => o = OOk [] /\ abs w' = s' /\ frame w w'
+  | None => o = OErr /\ tr = [] /\ w' = w
+  end ->
+  o = OOk out -> r = Some (abs w') /\ frame w w' /\ out = [].
+Proof.
+  intros r w w' o tr out H Ho. destruct r as [s'|].
+  - destruct H as (Ho' & Ha & Hf). rewrite Ho in Ho'. injection Ho' as ->. subst s'. auto.
+  - destruct H as (Ho' & _). rewrite Ho in Ho'. discriminate Ho'.
+Qed.
+
+Lemma refines_err_inv : forall (r : option astate) w w' o (tr : list effect),
+  match r with
+  | Some s' => o = OOk [] /\ abs w' = s' /\ frame w w'
+  | None => o = OErr /\ tr = [] /\ w' = w
+  end ->
+  o = OErr -> r = None /\ tr = [] /\ w' = w.
+Proof.
+  intros r w w' o tr H Ho. destruct r as [s'|].
+  - destruct H as (Ho' & _). rewrite Ho in Ho'. discriminate Ho'.
+  - destruct H as (_ & Ht & Hw). auto.
+Qed.
+
+(* the first operation spelled out on worlds: [branch <name>] answers Ok
+   exactly when HEAD has a commit, the name is new and valid; then exactly
+   one branch is added, at that commit, and nothing else moves *)
+Corollary branch_create_ok : forall e name w x w' out tr,
+  w_inited w = true -> ctx_of w = Some x ->
+  step (ACmd e (CBranch [name] false [] [])) w = (w', OOk out, tr) ->
+  exists hid cm,
+    x_headc x = Some (hid, cm) /\ am_mem (w_refs w) name = false /\ valid_branch_name name = true /\
+    w_refs w' = am_set (w_refs w) name hid /\ w_head w' = w_head w /\
+    (forall n, n <> name -> am_get (w_refs w') n = am_get (w_refs w) n) /\
+    length (w_refs w') = S (length (w_refs w)) /\
+    frame w w' /\ out = [].
+Proof.
+  intros e name w x w' out tr Hi Hx Hstep.
+  pose proof (branch_create_refines e name w x w' (OOk out) tr Hi Hx Hstep) as Href.
+  destruct (refines_ok_inv _ _ _ _ _ _ Href eq_refl) as (Ha & Hf & Hout).
+  pose proof (loaded_headc w x Hx) as Hh.
+  unfold a_branch, abs in Ha. cbn [fst snd] in Ha.
+  destruct (x_headc x) as [[hid cm]|].
+  - destruct Hh as [Hg _]. rewrite Hg in Ha. exists hid, cm.
+    destruct (am_mem (w_refs w) name) eqn:Em; cbn [negb andb] in Ha; [discriminate Ha|].
+    destruct (valid_branch_name name) eqn:Ev; [|discriminate Ha].
+    injection Ha as Hhead Hrefs. rewrite <- Hrefs.
+    split; [reflexivity|]. split; [reflexivity|]. split; [reflexivity|].
+    split; [reflexivity|]. split; [symmetry; exact Hhead|].
+    split; [intros n Hn; apply am_get_set_other; exact Hn|].
+    split; [apply am_length_set_new; exact Em|]. split; [exact Hf | exact Hout].
+  - rewrite Hh in Ha. discriminate Ha.
+Qed.
+
 (* ================================================================== *)
 (** * 6. A refused operation changes nothing *)
 
@@ -2192,6 +2247,7 @@ Print Assumptions branch_rename_refines.
 Print Assumptions switch_refines.
 Print Assumptions switch_create_refines.
 Print Assumptions update_ref_refines.
+Print Assumptions branch_create_ok.
 Print Assumptions a_branch_spec.
 Print Assumptions a_delete_spec.
 Print Assumptions a_rename_spec.
